@@ -747,6 +747,15 @@ def _model_line(case):
 
 def replay_known(entry) -> bool:
     w = entry["witness"]
+    if w.get("clause") == "binarynode_crash":
+        from bigtree import BinaryNode, reingold_tilford
+        try:
+            reingold_tilford(BinaryNode(1))
+        except AttributeError:
+            return True
+        except Exception:
+            return False
+        return False
     if w.get("clause") != "cousin_separation":
         return False
     def shape(t):
